@@ -634,6 +634,25 @@ func (w *World) c20Commits() {
 			}
 			num, _ := valInt(r.Vals[ts.Col("num")])
 			w.c20Progress[key] = num
+			// an integration that looks up another one's table never records a
+			// block the other one has not recorded for the same source
+			for _, rn := range w.depsOf(d) {
+				have := int64(-1)
+				if exp[s+"/"+rn] != nil {
+					for _, o := range ts.Rows {
+						os, oi, _ := stamp(ts.Cols, o)
+						if os == s && oi == rn {
+							if n, _ := valInt(o.Vals[ts.Col("num")]); n > have {
+								have = n
+							}
+						}
+					}
+				}
+				w.stat("probe_dependent_position_checked", 1)
+				if num > have {
+					w.violate("dependent-ahead", "pair %s recorded block %d although the integration it looks up (%s) has recorded %d for that source (-1: nothing / not running there)", key, num, rn, have)
+				}
+			}
 			// "each with that source's settings": the recorded hash is the hash
 			// of that block on the pair's own source (these chains only grow,
 			// and every source has a chain of its own)
@@ -759,6 +778,10 @@ func (w *World) c20Final() {
 				if ss == nil || ref.Start == 0 || int64(ref.Start) > int64(ss.node.HeadNum()) {
 					continue
 				}
+				if len(w.depsOf(d)) > 0 {
+					// it may have to wait for ever for what it looks up
+					continue
+				}
 				if _, ok := w.c20Progress[k]; !ok {
 					w.violate("pair-not-indexed", "pair %s is configured and enabled but never recorded a position", k)
 				}
@@ -856,6 +879,23 @@ func GenC20(seed uint64) *Plan {
 			cs.DBIntegrations = append(cs.DBIntegrations, bad)
 		}
 		cs.ExpectRunError = true
+	}
+	if !cs.ExpectRunError && g.chance(30) {
+		// two database-stored integrations, the second one filtered by a
+		// lookup in the first one's table: what it has to wait for travels in
+		// the stored configuration only. The referenced one is switched off or
+		// ends early, so the dependent has to stop short of the head.
+		ref := mk("dbref", uint64(g.between(1, 3)))
+		ref.Sources = ref.Sources[:1]
+		ref.Table.Name = "t_dbref_db"
+		ref.Enabled = g.chance(50)
+		ref.Sources[0].Stop = ref.Sources[0].Start + uint64(g.between(0, 3))
+		dep := mk("dbdep", uint64(g.between(1, 3)))
+		dep.Enabled = true
+		dep.Table.Name = "t_dbdep_db"
+		dep.Sources = []model.SrcRef{{Name: ref.Sources[0].Name, Start: dep.Sources[0].Start}}
+		dep.Event.Inputs[0].Filter = &model.Filter{Op: "contains", Ref: &model.Ref{Integration: "dbref", Column: ref.Event.Inputs[0].Column}}
+		cs.DBIntegrations = append(cs.DBIntegrations, ref, dep)
 	}
 	for i := 0; i < g.between(0, 2); i++ {
 		d := mk(fmt.Sprintf("saved%d", i), uint64(g.between(1, 5)))
